@@ -131,6 +131,13 @@ Definition uri_query_need (s : bytes) : Z :=
   | None => 0
   end.
 
+(* RFC 7252 6.4 steps 8 and 9: no Uri-Path for an empty path (the "/" after the authority is
+   not part of [path] here), no Uri-Query for an absent/empty query *)
+Definition uri_spec_path_opts (p : bytes) : option (list bytes) :=
+  match p with [] => Some [] | _ => uri_spec_path p end.
+Definition uri_spec_query_opts (q : bytes) : option (list bytes) :=
+  match q with [] => Some [] | _ => uri_spec_query q end.
+
 (* the last raw segment is "." or ".." (literally or escaped) *)
 Definition uri_ends_in_dot (ds : list bytes) : bool :=
   match rev ds with d :: _ => uri_is_dot d || uri_is_dotdot d | [] => false end.
